@@ -781,7 +781,11 @@ class ReadvMonitor(WireMonitor):
                 for shnum, lst in data.items():
                     for b in lst:
                         if isinstance(b, bytes) and len(b) >= 9 and b[0] in (0, 1):
-                            seqs.append(struct.unpack(">Q", b[1:9])[0])
+                            # (the answer does not say which offsets were read: a data block that happens to begin with
+                            # 0x00/0x01 parses as a header with a random 64-bit "sequence number"; real ones are small)
+                            sq_ = struct.unpack(">Q", b[1:9])[0]
+                            if sq_ < (1 << 32):
+                                seqs.append(sq_)
         heads = {}
         if ok and isinstance(data, dict):
             for shnum, lst in data.items():
